@@ -147,7 +147,7 @@ theorem run_eq (qf : RepMap M → V × Int × Bool) (stream : Bool) (x : Nat)
     (st : LoopSt V E M) (o : Obj V E) (as : List (Arrival M E)) :
     run qf stream x st o as =
       if exhausted stream st.errs.length st.replies.length x then
-        [o.set st.resp st.clevel (some (.incomplete st.errs st.replies.length)) true]
+        [o.set st.resp st.clevel (some (exhaustedErr st.errs st.replies.length as)) true]
       else match as with
         | [] => []
         | a :: as =>
@@ -245,7 +245,8 @@ theorem run_never_panics (qf : RepMap M → V × Int × Bool) (stream : Bool) (x
     intro s hs
     rw [run_eq] at hs
     split at hs
-    · obtain ⟨o', ho'⟩ := set_some o h.2 st.resp st.clevel (some (.incomplete st.errs st.replies.length)) true
+    · obtain ⟨o', ho'⟩ := set_some o h.2 st.resp st.clevel
+        (some (exhaustedErr st.errs st.replies.length ([] : List (Arrival M E)))) true
       rw [ho'] at hs
       simp only [List.mem_singleton] at hs
       subst hs; simp
@@ -254,7 +255,8 @@ theorem run_never_panics (qf : RepMap M → V × Int × Bool) (stream : Bool) (x
     intro s hs
     rw [run_eq] at hs
     split at hs
-    · obtain ⟨o', ho'⟩ := set_some o h.2 st.resp st.clevel (some (.incomplete st.errs st.replies.length)) true
+    · obtain ⟨o', ho'⟩ := set_some o h.2 st.resp st.clevel
+        (some (exhaustedErr st.errs st.replies.length (a :: as))) true
       rw [ho'] at hs
       simp only [List.mem_singleton] at hs
       subst hs; simp
@@ -281,7 +283,8 @@ theorem run_levels_monotone (qf : RepMap M → V × Int × Bool) (stream : Bool)
   | nil =>
     rw [run_eq]
     split
-    · obtain ⟨o', ho'⟩ := set_some o h.2 st.resp st.clevel (some (.incomplete st.errs st.replies.length)) true
+    · obtain ⟨o', ho'⟩ := set_some o h.2 st.resp st.clevel
+        (some (exhaustedErr st.errs st.replies.length ([] : List (Arrival M E)))) true
       obtain ⟨_, f2, _, _, _⟩ := set_fields o o' _ _ _ _ ho'
       rw [ho']
       simp [levels, f2, h.1]
@@ -289,7 +292,8 @@ theorem run_levels_monotone (qf : RepMap M → V × Int × Bool) (stream : Bool)
   | cons a as ih =>
     rw [run_eq]
     split
-    · obtain ⟨o', ho'⟩ := set_some o h.2 st.resp st.clevel (some (.incomplete st.errs st.replies.length)) true
+    · obtain ⟨o', ho'⟩ := set_some o h.2 st.resp st.clevel
+        (some (exhaustedErr st.errs st.replies.length (a :: as))) true
       obtain ⟨_, f2, _, _, _⟩ := set_fields o o' _ _ _ _ ho'
       rw [ho']
       simp [levels, f2, h.1]
@@ -476,16 +480,48 @@ theorem run_watchInv (qf : RepMap M → V × Int × Bool) (stream : Bool) (x : N
         · exact ih st' o' (hlink rfl) (hW hw) o1 hs
 
 /-- **exhaustion**: a plain call whose targeted nodes have all answered, or a stream call whose
-    nodes have all failed, completes with Incomplete at the top of the loop, also with zero targets -/
+    nodes have all failed, completes at the top of the loop, also with zero targets: with Incomplete —
+    or with the context's error if the context has ended by then (its end is the next event) -/
 theorem run_exhausted (qf : RepMap M → V × Int × Bool) (stream : Bool) (x : Nat)
     (st : LoopSt V E M) (o : Obj V E) (as : List (Arrival M E)) (h : Linked st o)
     (hx : exhausted stream st.errs.length st.replies.length x = true) :
     ∃ o', run qf stream x st o as = [some o'] ∧ o'.done = true ∧ o'.level = o.level ∧
-      o'.err = some (.incomplete st.errs st.replies.length) := by
+      o'.err = some (exhaustedErr st.errs st.replies.length as) := by
   obtain ⟨hlv, hd⟩ := h
-  obtain ⟨o', hs⟩ := set_some o hd st.resp st.clevel (some (.incomplete st.errs st.replies.length)) true
+  obtain ⟨o', hs⟩ := set_some o hd st.resp st.clevel (some (exhaustedErr st.errs st.replies.length as)) true
   obtain ⟨_, f2, f3, f4, _⟩ := set_fields o o' _ _ _ _ hs
   refine ⟨o', ?_, f4, by rw [f2, hlv], f3⟩
   rw [run_eq, hx, if_pos rfl, hs]
+
+/-- what the exhaustion branch reports: Incomplete unless the context's end is the next event … -/
+theorem exhaustedErr_incomplete (errs : List (NodeId × E)) (n : Nat) (rest : List (Arrival M E))
+    (h : ∀ c post, rest ≠ .ctxDone c :: post) : exhaustedErr errs n rest = .incomplete errs n := by
+  unfold exhaustedErr
+  split
+  · rename_i c post; exact absurd rfl (h c post)
+  · rfl
+
+/-- … in which case it is the context's error ("the context's error when the context ends first") -/
+theorem exhaustedErr_ctx (errs : List (NodeId × E)) (n : Nat) (c : E) (post : List (Arrival M E)) :
+    exhaustedErr errs n (.ctxDone c :: post) = .ctx c errs n := rfl
+
+/-- exhaustion while the context has not ended: Incomplete -/
+theorem run_exhausted_incomplete (qf : RepMap M → V × Int × Bool) (stream : Bool) (x : Nat)
+    (st : LoopSt V E M) (o : Obj V E) (as : List (Arrival M E)) (h : Linked st o)
+    (hx : exhausted stream st.errs.length st.replies.length x = true)
+    (hctx : ∀ c post, as ≠ .ctxDone c :: post) :
+    ∃ o', run qf stream x st o as = [some o'] ∧ o'.done = true ∧ o'.level = o.level ∧
+      o'.err = some (.incomplete st.errs st.replies.length) := by
+  obtain ⟨o', h1, h2, h3, h4⟩ := run_exhausted qf stream x st o as h hx
+  exact ⟨o', h1, h2, h3, by rw [h4, exhaustedErr_incomplete _ _ _ hctx]⟩
+
+/-- exhaustion when the context has ended: the context's error, with the same lists -/
+theorem run_exhausted_ctx (qf : RepMap M → V × Int × Bool) (stream : Bool) (x : Nat)
+    (st : LoopSt V E M) (o : Obj V E) (c : E) (post : List (Arrival M E)) (h : Linked st o)
+    (hx : exhausted stream st.errs.length st.replies.length x = true) :
+    ∃ o', run qf stream x st o (.ctxDone c :: post) = [some o'] ∧ o'.done = true ∧ o'.level = o.level ∧
+      o'.err = some (.ctx c st.errs st.replies.length) := by
+  obtain ⟨o', h1, h2, h3, h4⟩ := run_exhausted qf stream x st o (.ctxDone c :: post) h hx
+  exact ⟨o', h1, h2, h3, by rw [h4, exhaustedErr_ctx]⟩
 
 end GorumsV.C11
